@@ -21,7 +21,7 @@ variable {H S F : Type} [DecidableEq H]
 /-- **Transparency** for histories whose edits change options (and files): as C18, where `henc` now also says that on the
     history's inputs equal hash data implies equal option values (`View.opts`). -/
 theorem option_history_transparent_generic (W : World H S F) (t0 : Tree) (evs : List Event)
-    (hinj : Function.Injective W.hash)
+    (hinj : HashInjOn W ((runsOf t0 evs).flatMap (·.2)))
     (henc : KeyFaithfulOn W.enc ((runsOf t0 evs).flatMap (·.2)))
     (hmac : ∀ r ∈ runsOf t0 evs, MacroFree W r.1 r.2)
     (hmap : ∀ r ∈ runsOf t0 evs, MapOK W.lk (r.2.map (·.path)))
@@ -33,7 +33,7 @@ theorem option_history_transparent_generic (W : World H S F) (t0 : Tree) (evs : 
     the analysis reads -/
 theorem option_history_transparent_partial (W : World H S F) (t0 : Tree) (evs : List Event)
     (henc : W.enc = Encoding.fixed) (hlk : W.lk = .exactFirst)
-    (hinj : Function.Injective W.hash)
+    (hinj : HashInjOn W ((runsOf t0 evs).flatMap (·.2)))
     (hpath : ∀ r ∈ runsOf t0 evs, ∀ i ∈ r.2, PathPrefixed i)
     (hopt : OptsDetermined ((runsOf t0 evs).flatMap (·.2)))
     (hnd : ∀ r ∈ runsOf t0 evs, (r.2.map (·.path)).Nodup)
